@@ -331,7 +331,8 @@ def check_inner(ctx, r, rid="R0"):
                ("reference", Bloc(FkNotSet("inner"), Var("var_x"))),
                ("range", Rng("var_count", "I32", [(Exact(0), Lit("zero")), (FALLBACK, Bloc(Var("var_count"), Var("var_x")))]))]
     argsets = [("no-args", L()), ("x", L(T(S("var_x"), Lit("X")))), ("x=reference", L(T(S("var_x"), FkNotSet("arg"))))]
-    EXT = {"fr-CA": "fr", "de": "it", "it": "de", "pt": "pt", "fr-QC": "fr-CA"}          # a chain (two hops from fr-QC), a cycle, a self reference
+    EXT = {"fr-CA": "fr", "de": "it", "it": "de", "pt": "pt", "fr-QC": "fr-CA", "nl": "de", "es": "ca", "ca": "gl", "gl": "es", "oc": "pt"}
+    # a chain (two hops from fr-QC), a cycle, a self reference, a tail leading into a cycle it is not part of (nl -> de <-> it; oc -> pt -> pt), a cycle of three
     NULL, ABSENT = DEFAULT, None
     # (label, locale of the reference, {locale: value | NULL | ABSENT})
     cases = []
@@ -352,6 +353,12 @@ def check_inner(ctx, r, rid="R0"):
         ("null-cycle-other-defines", "de", {"de": NULL, "it": T_IT, "en": T_EN}),
         ("null-cycle-other-absent", "it", {"it": NULL, "en": T_EN}),
         ("null-self-reference", "pt", {"pt": NULL, "en": T_EN}),
+        ("null-tail-into-cycle-all-null", "nl", {"nl": NULL, "de": NULL, "it": NULL, "en": T_EN}),
+        ("null-tail-into-cycle-absent", "nl", {"nl": NULL, "en": T_EN}),
+        ("null-tail-into-cycle-last-defines", "nl", {"nl": NULL, "de": NULL, "it": T_IT, "en": T_EN}),
+        ("null-tail-into-self-reference", "oc", {"oc": NULL, "pt": NULL, "en": T_EN}),
+        ("null-cycle-of-three-all-null", "ca", {"es": NULL, "ca": NULL, "gl": NULL, "en": T_EN}),
+        ("null-cycle-of-three-last-defines", "ca", {"es": T_FR, "ca": NULL, "gl": NULL, "en": T_EN}),
     ]
     n = 0
     bad = 0
